@@ -23,6 +23,15 @@ import (
 	"verifharness/internal/raw"
 )
 
+// proofCount: byte-altered proofs per configuration (every case is two DI runs and a protocol prefix with the
+// configuration's signatures: the thorough tier's larger n would take an hour per check with P-384 / RSA-3072 keys).
+func proofCount(c *core.Ctx, quick int) int {
+	if c.Quick() {
+		return quick
+	}
+	return 300
+}
+
 func srvSetup(c *core.Ctx) {
 	registerServerKinds(c)
 	registerProofKind(c)
@@ -99,7 +108,7 @@ func RunC02(c *core.Ctx) {
 		for i := 0; i < n; i++ {
 			doHist(c, cf, genRandomTO2(c, 5+c.Rng.Intn(12)), "random-to2", nil)
 		}
-		doProofs(c, cf, 64, 3*n)
+		doProofs(c, cf, 64, proofCount(c, 3*n))
 	}
 }
 
@@ -196,7 +205,7 @@ func RunC06(c *core.Ctx) {
 		for i := 0; i < n; i++ {
 			doHist(c, cf, genRandomOf(c, "TO0", 3+c.Rng.Intn(8)), "random-to0", nil)
 		}
-		doProofs(c, cf, 22, 4*n)
+		doProofs(c, cf, 22, proofCount(c, 4*n))
 		if !c.Quick() || spec.Name == env.P256.Name {
 			reRegistrationExpiryProbe(c, spec)
 		}
@@ -352,7 +361,7 @@ func RunC07(c *core.Ctx) {
 		for i := 0; i < n; i++ {
 			doHist(c, cf, genRandomOf(c, "TO1", 3+c.Rng.Intn(8)), "random-to1", nil)
 		}
-		doProofs(c, cf, 32, 4*n)
+		doProofs(c, cf, 32, proofCount(c, 4*n))
 		if !c.Quick() || si == 0 {
 			expiryProbe(c, spec)
 		}
